@@ -6,6 +6,8 @@ mod c01_typed;
 mod c02;
 mod c05;
 mod c06;
+mod c13;
+mod c14;
 mod c15;
 mod c16;
 mod cfw;
@@ -86,6 +88,8 @@ fn main() {
 			"C02" => c02::replay(&v),
 			"C05" => c05::replay(&v),
 			"C06" => c06::replay(&v),
+			"C13" => c13::replay(&v),
+			"C14" => c14::replay(&v),
 			"C15" => c15::replay(&v),
 			"C16" => c16::replay(&v),
 			"C17" => c17::replay(&v),
@@ -105,6 +109,8 @@ fn main() {
 		"C02" => c02::run(&mut rep),
 		"C05" => c05::run(&mut rep),
 		"C06" => c06::run(&mut rep),
+		"C13" => c13::run(&mut rep),
+		"C14" => c14::run(&mut rep),
 		"C15" => c15::run(&mut rep),
 		"C16" => c16::run(&mut rep),
 		"C17" => c17::run(&mut rep),
